@@ -76,7 +76,12 @@ Proof. intros Hp. unfold after_push. destruct k; try (apply (finish_trace s o _ 
 (* ---------- one poll of an operation that is not finished ---------- *)
 Inductive PollCase (s : sys) (p p' : op) : list event -> Prop :=
 | PC_pending :
-    o_ph p' = o_ph p -> expired p s = false -> PollCase s p p' []
+    o_ph p' = o_ph p -> expired p s = false ->
+    (* why it is still pending: the send is waiting for a permit of an open channel, or the reply
+       slot of an accepted ask is untouched *)
+    (o_ph p = OWaitReply -> get_actor s (o_tgt p) <> None -> o_slot p = SlEmpty) ->
+    (o_ph p = OPre -> forall x, get_actor s (o_tgt p) = Some x -> a_closed x = false) ->
+    PollCase s p p' []
 | PC_accept_ask x :
     o_ph p = OPre -> o_kind p = KAsk -> get_actor s (o_tgt p) = Some x -> a_closed x = false ->
     o_ph p' = OWaitReply -> expired p s = false ->
@@ -108,7 +113,8 @@ Inductive PollCase (s : sys) (p p' : op) : list event -> Prop :=
 
 Inductive InnerCase (s : sys) (p p1 : op) : list event -> Prop :=
 | IC_pending :
-    o_ph p1 = o_ph p -> (o_ph p = OWaitReply -> get_actor s (o_tgt p) <> None -> o_slot p = SlEmpty) -> InnerCase s p p1 []
+    o_ph p1 = o_ph p -> (o_ph p = OWaitReply -> get_actor s (o_tgt p) <> None -> o_slot p = SlEmpty) ->
+    (o_ph p = OPre -> forall x, get_actor s (o_tgt p) = Some x -> a_closed x = false) -> InnerCase s p p1 []
 | IC_accept_ask x :
     o_ph p = OPre -> o_kind p = KAsk -> get_actor s (o_tgt p) = Some x -> a_closed x = false ->
     o_ph p1 = OWaitReply -> InnerCase s p p1 [EvAccept (o_tgt p) (o_id p) KAsk]
@@ -195,7 +201,7 @@ Proof.
   { intros st ->. constructor; try reflexivity. exact Hp. }
   unfold poll_inner.
   destruct (get_actor s (o_tgt p)) as [x|] eqn:Hx.
-  2: { exists p, []. split; [apply Hstay; reflexivity|]. apply IC_pending; [reflexivity|]. intros _ Hn. congruence. }
+  2: { exists p, []. split; [apply Hstay; reflexivity|]. apply IC_pending; [reflexivity| |]; [intros _ Hn; congruence|intros _ x' Hx'; congruence]. }
   destruct (o_ph p) eqn:Hph; [| |discriminate].
   - destruct (a_closed x) eqn:Hc.
     + destruct (send_failed_step (unwait (o_tgt p) (o_id p) (ungrant (o_tgt p) (o_id p) s)) s p) as (p1 & H1 & Eph);
@@ -212,9 +218,9 @@ Proof.
         -- rewrite <- Hk. eapply IC_accept_done; try eassumption; congruence.
         -- eapply IC_accept_ask; try eassumption.
         -- rewrite <- Hk. eapply IC_accept_done; try eassumption; congruence.
-      * exists p, []. split; [apply Hstay; reflexivity|]. apply IC_pending; [reflexivity|congruence].
+      * exists p, []. split; [apply Hstay; reflexivity|]. apply IC_pending; [reflexivity|congruence|]. intros _ x' Hx'. congruence.
   - destruct (o_slot p) eqn:Hs.
-    + exists p, []. split; [apply Hstay; reflexivity|]. apply IC_pending; [reflexivity|intros _ _; exact Hs].
+    + exists p, []. split; [apply Hstay; reflexivity|]. apply IC_pending; [reflexivity|intros _ _; exact Hs|congruence].
     + exists (done_f (ROk v) p), [EvDone (o_id p) (ROk v)]. split.
       * constructor; try reflexivity.
         -- rewrite finish_get_op, Nat.eqb_refl, Hp. reflexivity.
